@@ -174,6 +174,11 @@ fn render_block_both(t: &tera::Tera, name: &str, block: &str, ctx: &tera::Contex
 /// Registers `bodies[k]` (source of level k without its extends tag) as `reg` says on a fresh
 /// engine, then renders every registered level and every probe block of it.
 fn observe(bodies: &[&str], reg: &Registration) -> (Obs, Vec<(String, String)>) {
+    observe_with(bodies, reg, true)
+}
+
+/// `probes = false`: registration and the full render of every level only.
+fn observe_with(bodies: &[&str], reg: &Registration, probes: bool) -> (Obs, Vec<(String, String)>) {
     let l = bodies.len();
     let ctx = tera::Context::new();
     let sources: Vec<(String, String)> = reg
@@ -188,7 +193,10 @@ fn observe(bodies: &[&str], reg: &Registration) -> (Obs, Vec<(String, String)>) 
             (reg.names[k].clone(), src)
         })
         .collect();
-    let mut t = tera::Tera::default();
+    thread_local! {
+        static PRISTINE: tera::Tera = tera::Tera::default();
+    }
+    let mut t = PRISTINE.with(|p| p.clone());
     let mut registered = vec![false; l];
     let mut adds = vec![];
     if reg.one_by_one {
@@ -212,7 +220,7 @@ fn observe(bodies: &[&str], reg: &Registration) -> (Obs, Vec<(String, String)>) 
             let name = reg.names[k].as_str();
             Some(LevelObs {
                 render: engine::render(&t, name, &ctx),
-                blocks: PROBES.iter().map(|b| render_block_both(&t, name, b, &ctx)).collect(),
+                blocks: if probes { PROBES.iter().map(|b| render_block_both(&t, name, b, &ctx)).collect() } else { vec![] },
             })
         })
         .collect();
@@ -565,6 +573,20 @@ impl Judge<'_> {
 /// Runs one chain under the canonical registration and judges it.
 /// `divergent`: false = the differential families, which leave chains without a finite rendering
 /// to the divergent-* families; true = run only those.
+/// `{% block x %}` -> `{% block x %}{% for q in range(end=0) %}{% endfor %}` everywhere in a body.
+fn with_call_in_blocks(body: &str) -> String {
+    let mut out = String::new();
+    let mut rest = body;
+    while let Some(i) = rest.find("{% block ") {
+        let end = i + rest[i..].find("%}").expect("generator bug: unterminated block tag") + 2;
+        out.push_str(&rest[..end]);
+        out.push_str("{% for q in range(end=0) %}{% endfor %}");
+        rest = &rest[end..];
+    }
+    out.push_str(rest);
+    out
+}
+
 fn run_canonical(levels: &[&Level], bodies: &[&str], descs: &[&str], acc: &mut Acc, tally: &mut Tally, sample: bool, divergent: bool) {
     let exp = expect(levels);
     if exp.diverges != divergent {
@@ -577,6 +599,42 @@ fn run_canonical(levels: &[&Level], bodies: &[&str], descs: &[&str], acc: &mut A
     let (obs, sources) = observe(bodies, &reg);
     let j = Judge { levels, descs: descs.to_vec(), exp: &exp, reg: &reg, sources: &sources, prefix: "", count: true };
     j.run(&obs, acc, tally);
+    // The same chain with a function call at the start of every block body (a loop over an empty
+    // `range`): no text is added, so every answer must be the one above. `super()` is a function
+    // call too, so this is done for every chain that calls it - seeded change C04-10 decided "does this block call super()" from the first
+    // function call of the body only.
+    if !divergent && bodies.iter().any(|b| b.contains("super()")) {
+        let decorated: Vec<String> = bodies.iter().map(|b| with_call_in_blocks(b)).collect();
+        let drefs: Vec<&str> = decorated.iter().map(|s| s.as_str()).collect();
+        let probes = true;
+        let (dobs, dsources) = observe_with(&drefs, &reg, probes);
+        let n = 1 + dobs.levels.iter().flatten().count() as u64 * (1 + if probes { PROBES.len() as u64 } else { 0 });
+        let plain = if probes {
+            obs.clone()
+        } else {
+            Obs { adds: obs.adds.clone(), levels: obs.levels.iter().map(|l| l.as_ref().map(|l| LevelObs { render: l.render.clone(), blocks: vec![] })).collect() }
+        };
+        if dobs.coarse() == plain.coarse() {
+            acc.evaluations += n;
+            acc.nontrivial += n;
+            *acc.outcomes.entry("function-call-in-blocks:same-as-plain-spelling".into()).or_insert(0) += n;
+        } else {
+            acc.violation(
+                "function-call-in-blocks:observation-differs",
+                "the same chain with `{% for q in range(end=0) %}{% endfor %}` at the start of every block body is accepted or rendered differently",
+                || {
+                    json!({
+                        "templates": dsources.iter().map(|(n, s)| json!({"name": n, "source": s})).collect::<Vec<_>>(),
+                        "plain_templates": sources.iter().map(|(n, s)| json!({"name": n, "source": s})).collect::<Vec<_>>(),
+                        "observed": dobs.coarse(),
+                        "observed_plain": plain.coarse(),
+                        "calls": if probes { "add, then per level render + render_block a, b, n, z" } else { "add, then per level render" },
+                    })
+                },
+            );
+            Judge { levels, descs: descs.to_vec(), exp: &exp, reg: &reg, sources: &dsources, prefix: "function-call-in-blocks:", count: true }.run(&dobs, acc, tally);
+        }
+    }
     let k = levels.len() - 1;
     let interesting = divergent || (exp.renders[k].events & ev::SUPER != 0 && obs.levels[k].as_ref().map(|l| l.render.is_ok()).unwrap_or(false));
     if sample && interesting && acc.wants_sample() {
